@@ -6,6 +6,7 @@ from z3 import ForAll, Implies, And, Or, Not, Select, Function, Const, BoolSort,
 from .ty import *
 
 GEN_AXIOMS = []      # (name, formula)
+GEN_LEMMAS = []      # names of generated axioms that are consequences of the pointwise definitions (proved on every run by gvc.induct)
 _fns = {}
 
 
@@ -28,7 +29,20 @@ def _setop(name, et, body):
 
 def union(a, b): return SV(a.t, _setop('union', a.t.args[0], lambda p, q: Or(p, q))(a.z, b.z))
 def inter(a, b): return SV(a.t, _setop('inter', a.t.args[0], lambda p, q: And(p, q))(a.z, b.z))
-def diff(a, b): return SV(a.t, _setop('diff', a.t.args[0], lambda p, q: And(p, Not(q)))(a.z, b.z))
+def diff(a, b):
+    r = SV(a.t, _setop('diff', a.t.args[0], lambda p, q: And(p, Not(q)))(a.z, b.z))
+    key = ('fin-diff', a.t.args[0].key)
+    if key not in _fns:
+        _fns[key] = True
+        S_ = sort_of(a.t); A, B = Const('A', S_), Const('B', S_); f = _fin_fn(a.t.args[0]); d = _setop('diff', a.t.args[0], None)
+        GEN_AXIOMS.append(('fin-diff[%s]' % a.t.args[0].key, ForAll([A, B], Implies(f(A), f(d(A, B))))))
+        # two set identities (pointwise tautologies) used to move single-element updates through a difference
+        x = Const('x', sort_of(a.t.args[0])); T_, F_ = z3.BoolVal(True), z3.BoolVal(False)
+        GEN_LEMMAS.extend(['diff-remove-right[%s]' % a.t.args[0].key, 'diff-add-both[%s]' % a.t.args[0].key, 'diff-of-subset-empty[%s]' % a.t.args[0].key])
+        GEN_AXIOMS.append(('diff-remove-right[%s]' % a.t.args[0].key, ForAll([A, B, x], d(A, z3.Store(B, x, F_)) == z3.Store(d(A, B), x, Select(A, x)))))
+        GEN_AXIOMS.append(('diff-of-subset-empty[%s]' % a.t.args[0].key, ForAll([A, B], Implies(ForAll([x], Implies(Select(A, x), Select(B, x))), d(A, B) == z3.K(sort_of(a.t.args[0]), F_)), patterns=[d(A, B)])))
+        GEN_AXIOMS.append(('diff-add-both[%s]' % a.t.args[0].key, ForAll([A, B, x], d(z3.Store(A, x, T_), z3.Store(B, x, T_)) == z3.Store(d(A, B), x, F_))))
+    return r
 def symdiff(a, b): return SV(a.t, _setop('symdiff', a.t.args[0], lambda p, q: z3.Xor(p, q))(a.z, b.z))
 
 
@@ -52,20 +66,44 @@ def is_empty(a):
     return ForAll([x], Not(Select(a.z, x)))
 
 
+def _fin_fn(et):
+    def mk():
+        S = sort_of(SET(et)); E = sort_of(et)
+        f = Function('fin_%s' % ''.join(c if c.isalnum() else '_' for c in et.key), S, BoolSort())
+        A, B = Const('A', S), Const('B', S); x = Const('x', E)
+        GEN_AXIOMS.append(('fin-empty[%s]' % et.key, f(z3.K(E, z3.BoolVal(False)))))
+        GEN_AXIOMS.append(('fin-add[%s]' % et.key, ForAll([A, x], f(z3.Store(A, x, z3.BoolVal(True))) == f(A))))
+        GEN_AXIOMS.append(('fin-remove[%s]' % et.key, ForAll([A, x], f(z3.Store(A, x, z3.BoolVal(False))) == f(A))))
+        return f
+    return _fn('fin', et, mk)
+
+
+def fin(a):
+    """a is a finite set (every set built by a program is; spec sets such as closures need not be)"""
+    return _fin_fn(a.t.args[0])(a.z)
+
+
 def card(a):
-    """cardinality of a finite set: uninterpreted, with the axioms used by termination / counting arguments"""
+    """cardinality of a finite set: uninterpreted, with the Finset facts used by counting arguments (each guarded by fin)"""
     et = a.t.args[0]
 
     def mk():
         S = sort_of(SET(et)); E = sort_of(et)
         f = Function('card_%s' % ''.join(c if c.isalnum() else '_' for c in et.key), S, IntSort())
-        A = Const('A', S); x = Const('x', E)
+        fn = _fin_fn(et)
+        A, B = Const('A', S), Const('B', S); x = Const('x', E)
         GEN_AXIOMS.append(('card-nonneg[%s]' % et.key, ForAll([A], f(A) >= 0)))
         GEN_AXIOMS.append(('card-empty[%s]' % et.key, f(z3.K(E, z3.BoolVal(False))) == 0))
-        GEN_AXIOMS.append(('card-add[%s]' % et.key, ForAll([A, x], f(z3.Store(A, x, z3.BoolVal(True))) == z3.If(Select(A, x), f(A), f(A) + 1))))
-        GEN_AXIOMS.append(('card-remove[%s]' % et.key, ForAll([A, x], f(z3.Store(A, x, z3.BoolVal(False))) == z3.If(Select(A, x), f(A) - 1, f(A)))))
+        GEN_AXIOMS.append(('card-add[%s]' % et.key, ForAll([A, x], Implies(fn(A), f(z3.Store(A, x, z3.BoolVal(True))) == z3.If(Select(A, x), f(A), f(A) + 1)))))
+        GEN_AXIOMS.append(('card-remove[%s]' % et.key, ForAll([A, x], Implies(fn(A), f(z3.Store(A, x, z3.BoolVal(False))) == z3.If(Select(A, x), f(A) - 1, f(A))))))
         return f
     return SV(INT, _fn('card', et, mk)(a.z))
+
+
+def card_strict_subset(a, b, x):
+    """instance of Finset.card_lt_card: a subset of b, x in b but not in a, b finite  =>  fin a and card a < card b"""
+    y = fresh_z('y', sort_of(a.t.args[0]))
+    return Implies(And(fin(b), ForAll([y], Implies(Select(a.z, y), Select(b.z, y))), Select(b.z, x.z), Not(Select(a.z, x.z))), And(fin(a), card(a).z < card(b).z))
 
 
 def view(m):
